@@ -250,7 +250,7 @@ fn worker_inputs(rep: &mut Report, shard: usize, shards: usize, tier: &str, seed
         let vary = rng.chance(1, 2);
         let gt = rng.chance(1, 4);
         let mut bytes = refxml::render(&mut rng, Style { vary, literal_gt_in_attributes: gt }, &doc);
-        let class = match rng.below(12) {
+        let class = match rng.below(13) {
             0 => {
                 // blank attribute values
                 let text = String::from_utf8_lossy(&bytes).into_owned();
@@ -329,6 +329,47 @@ fn worker_inputs(rep: &mut Report, shard: usize, shards: usize, tier: &str, seed
                     bytes.splice(*at..*at, ins.iter().copied());
                 }
                 "pi-or-comment-inserted"
+            }
+            12 => {
+                // line breaks inside the attribute values of the first tags (the line a diagnostic names is computed from the
+                // line breaks seen so far), optionally with the root tag on the first line and an attribute that draws a warning
+                let mut text = String::from_utf8_lossy(&bytes).into_owned();
+                if rng.chance(1, 2) {
+                    text = text.replacen("?>\n<AUTOSAR", "?><AUTOSAR", 1);
+                }
+                if rng.chance(1, 2) {
+                    text = text.replacen("<AUTOSAR ", &format!("<AUTOSAR BOGUS=\"1{}\" ", "\n".repeat(rng.below(3))), 1);
+                }
+                let limit = text.find("<AR-PACKAGES").unwrap_or(600) + if rng.chance(1, 3) { 500 } else { 0 };
+                let k = rng.range(1, 3);
+                let at_end = rng.chance(2, 3);
+                let mut out = String::with_capacity(text.len() + 64);
+                let (mut in_tag, mut quote) = (false, None::<char>);
+                for (i, c) in text.char_indices() {
+                    match (in_tag, quote, c) {
+                        // (not inside the xml declaration: its pseudo attributes have fixed values)
+                        (false, _, '<') => in_tag = !text[i..].starts_with("<?"),
+                        (true, None, '>') => in_tag = false,
+                        (true, None, '"' | '\'') => {
+                            quote = Some(c);
+                            out.push(c);
+                            if i < limit && !at_end {
+                                out.push_str(&"\n".repeat(k));
+                            }
+                            continue;
+                        }
+                        (true, Some(q), x) if x == q => {
+                            if i < limit && at_end {
+                                out.push_str(&"\n".repeat(k));
+                            }
+                            quote = None;
+                        }
+                        _ => {}
+                    }
+                    out.push(c);
+                }
+                bytes = out.into_bytes();
+                "line-breaks-in-attribute-values"
             }
             _ => {
                 bytes = crate::c08::mutate_bytes_pub(&mut rng, &bytes);
